@@ -47,15 +47,11 @@ theorem isCompositeLit_false_of {r : RExp} (h1 : isStructLit r = false) (h2 : is
     isCompositeLit r = false := by simp [isCompositeLit, h1, h2]
 
 /-- `l = r` -/
-theorem assignY_spec (st : St) (l : LExp) (r : RExp) (inBody : Bool) (h : sopClass inBody (.assign l r) = none) :
+theorem assignY_spec (st : St) (l : LExp) (r : RExp) :
     assignY share st l r = Spec.assign st l r := by
   unfold assignY Spec.assign
   cases l with
   | var x =>
-    have hs : isStructLit r = false := by
-      cases hsl : isStructLit r with
-      | false => rfl
-      | true => simp [sopClass, hsl] at h
     simp only [resolve, share_litShortcut, Bool.true_and, share_assignCopies, if_true, bind, Except.bind]
     cases hc : isCompositeLit r with
     | true =>
@@ -66,7 +62,7 @@ theorem assignY_spec (st : St) (l : LExp) (r : RExp) (inBody : Bool) (h : sopCla
         simp only
         rcases evalSlot_cases st r with ⟨e, h1, h2⟩ | ⟨s, st1, v, h1, h2, h3, h4⟩
         · simp [h1, h2]
-        · simp [h1, h2, h3, storeShortcut, hs, share_arrayLitSets, bind, Except.bind, h4.var x, hv]
+        · simp [h1, h2, h3, storeShortcut, share_arrayLitSets, share_structLitAssignSets, bind, Except.bind, h4.var x, hv]
     | false =>
       simp only [Bool.false_eq_true, if_false]
       cases hv : st.var x with
